@@ -596,19 +596,29 @@ func c20parseChan(line string) (cfg c20stress.ChanConfig, race, ok bool) {
 	return cfg, race, cfg.Kind != ""
 }
 
-// c20chanBatch runs integration scenarios in parallel (they mostly sleep), judges them with the Go
-// side of the oracle and replays each through the Lean byte-level reader with the model's own
-// normalisation of the transport reads.
-func (c *ctx) c20chanBatch(cfgs []c20stress.ChanConfig) {
-	res := c.res
-	reps := make([]c20stress.ChanReport, len(cfgs))
-	sem := make(chan struct{}, vlib.Conc(8))
+// c20chanWorker is the child side: run the scenarios listed in the input file, par at a time, and
+// append one JSON line {"i":index,"rep":report} per finished scenario to the output file.
+func c20chanWorker(in, out string, par int) {
+	var cfgs []c20stress.ChanConfig
+	b, err := os.ReadFile(in)
+	if err != nil || json.Unmarshal(b, &cfgs) != nil {
+		fmt.Fprintln(os.Stderr, "c20 chan worker: cannot read", in)
+		os.Exit(3)
+	}
+	f, err := os.OpenFile(out, os.O_CREATE|os.O_WRONLY|os.O_APPEND, 0o644)
+	if err != nil {
+		os.Exit(3)
+	}
+	var mu sync.Mutex
 	var wg sync.WaitGroup
 	var stuck atomic.Int64
+	sem := make(chan struct{}, par)
 	for i := range cfgs {
 		if stuck.Load() >= 6 {
 			// six scenarios already ran into their watchdog: the rest would only wait as well
-			reps[i].Kind = "skipped"
+			mu.Lock()
+			fmt.Fprintf(f, "{\"i\":%d,\"rep\":{\"kind\":\"skipped\"}}\n", i)
+			mu.Unlock()
 			continue
 		}
 		wg.Add(1)
@@ -617,18 +627,135 @@ func (c *ctx) c20chanBatch(cfgs []c20stress.ChanConfig) {
 			defer wg.Done()
 			defer func() { <-sem }()
 			cfgs[i].Record = true
-			reps[i] = c20stress.RunChan(cfgs[i])
-			if v := reps[i].Violation; v == "chan-timeout" || v == "chan-deadlock" {
+			rep := c20stress.RunChan(cfgs[i])
+			if v := rep.Violation; v == "chan-timeout" || v == "chan-deadlock" {
 				stuck.Add(1)
 			}
+			jb, _ := json.Marshal(struct {
+				I   int                  `json:"i"`
+				Rep c20stress.ChanReport `json:"rep"`
+			}{i, rep})
+			mu.Lock()
+			f.Write(append(jb, '\n'))
+			mu.Unlock()
 		}(i)
 	}
 	wg.Wait()
+	f.Close()
+}
+
+// c20chanChild runs cfgs in one child process; ok[i] says whether scenario i reported back.
+func (c *ctx) c20chanChild(cfgs []c20stress.ChanConfig, par int) (reps []c20stress.ChanReport, ok []bool, stderr string) {
+	reps = make([]c20stress.ChanReport, len(cfgs))
+	ok = make([]bool, len(cfgs))
+	in, _ := os.CreateTemp("", "c20-chan-in-*")
+	out, _ := os.CreateTemp("", "c20-chan-out-*")
+	defer os.Remove(in.Name())
+	defer os.Remove(out.Name())
+	jb, _ := json.Marshal(cfgs)
+	in.Write(jb)
+	in.Close()
+	out.Close()
+	cmd := exec.Command(os.Args[0], "C20", "-tier", c.tier, "-driver", c.driver,
+		"-replay", fmt.Sprintf("c20 chanworker in=%s out=%s par=%d", in.Name(), out.Name(), par))
+	var eb bytes.Buffer
+	cmd.Stderr = &eb
+	_ = cmd.Run()
+	if b, err := os.ReadFile(out.Name()); err == nil {
+		for _, l := range bytes.Split(b, []byte("\n")) {
+			var rec struct {
+				I   int                  `json:"i"`
+				Rep c20stress.ChanReport `json:"rep"`
+			}
+			if len(l) > 0 && json.Unmarshal(l, &rec) == nil && rec.I >= 0 && rec.I < len(cfgs) {
+				reps[rec.I], ok[rec.I] = rec.Rep, true
+			}
+		}
+	}
+	return reps, ok, eb.String()
+}
+
+// c20chanChildren runs all scenarios in one child; the scenarios that were in flight when the child
+// died are re-run one by one, each in a child of its own, to find the one that kills the process.
+func (c *ctx) c20chanChildren(cfgs []c20stress.ChanConfig) []c20stress.ChanReport {
+	par := vlib.Conc(8)
+	reps, ok, stderr := c.c20chanChild(cfgs, par)
+	var missing []int
+	for i := range cfgs {
+		if !ok[i] {
+			missing = append(missing, i)
+		}
+	}
+	if len(missing) == 0 {
+		return reps
+	}
+	excerpt := func(s string) string {
+		if i := strings.Index(s, "panic:"); i >= 0 {
+			s = s[i:]
+		} else if i := strings.Index(s, "fatal error:"); i >= 0 {
+			s = s[i:]
+		}
+		// keep the library frames
+		var keep []string
+		for _, l := range strings.Split(s, "\n") {
+			if len(keep) < 2 || strings.Contains(l, "scrapligo/") {
+				keep = append(keep, strings.TrimSpace(l))
+			}
+			if len(keep) > 14 {
+				break
+			}
+		}
+		return strings.Join(keep, " | ")
+	}
+	found := false
+	tried := 0
+	for _, i := range missing {
+		reps[i].Kind = "victim"
+		if tried >= 2*par+2 {
+			continue // scenarios after the crash point were never started
+		}
+		tried++
+		for attempt := 0; attempt < 2 && !found; attempt++ {
+			r1, ok1, e1 := c.c20chanChild(cfgs[i:i+1], 1)
+			if ok1[0] {
+				reps[i] = r1[0]
+				if r1[0].Violation != "" {
+					break
+				}
+				continue
+			}
+			found = true
+			reps[i] = c20stress.ChanReport{Kind: cfgs[i].Kind, Dims: map[string]string{}, Violation: "chan-panic",
+				Detail: fmt.Sprintf("the process died while this scenario ran alone (a panic in one of the library's goroutines cannot be recovered): %s", excerpt(e1))}
+		}
+	}
+	if !found {
+		// not reproduced alone: report the death on the first scenario that was in flight
+		i := missing[0]
+		reps[i] = c20stress.ChanReport{Kind: cfgs[i].Kind, Dims: map[string]string{}, Violation: "chan-panic",
+			Detail: fmt.Sprintf("the process running %d scenarios died (not reproduced by the in-flight scenarios alone): %s", len(cfgs), excerpt(stderr))}
+	}
+	return reps
+}
+
+// c20chanBatch runs integration scenarios in parallel (they mostly sleep), judges them with the Go
+// side of the oracle and replays each through the Lean byte-level reader with the model's own
+// normalisation of the transport reads.
+func (c *ctx) c20chanBatch(cfgs []c20stress.ChanConfig) {
+	res := c.res
+	// the scenarios run in a child process of this binary: a panic in one of the library's own
+	// goroutines (read loop, the goroutine of an operation, the login goroutine) cannot be
+	// recovered and would take the whole harness down
+	reps := c.c20chanChildren(cfgs)
 	var lines []string
 	var idx []int
 	for i, rep := range reps {
 		if rep.Kind == "skipped" {
 			res.Count("chan:skipped-after-six-watchdog-hits")
+			continue
+		}
+		if rep.Kind == "victim" {
+			res.Count("chan:in-flight-when-another-scenario-killed-the-process")
 			continue
 		}
 		line := c20chanLine(cfgs[i], false)
@@ -729,7 +856,7 @@ func (c *ctx) c20raceChan(bin string, seed uint64, n int, only string) {
 
 func runC20(c *ctx) {
 	res := c.res
-	res.Rule = "sequential: every history of the exact length L (quick 6, thorough 7) over {Enqueue A, Enqueue B, Requeue A, Requeue B, Dequeue, DequeueAll, GetDepth} (every shorter history is a prefix of one of them) + random histories up to 200 calls over chunks incl. empty / long / repeated; real util.Queue vs Lean Seq model vs list spec, all results and final depth. concurrent: one producer + one consumer goroutine on the real queue, GOMAXPROCS 1/2/4/16, consumer checks its stream against the producer's through a push-back reader (also replayed by the Lean reader `consume` on recorded runs), GetDepth bounds, nil-only-when-empty, watchdog; the same under -race in a child process. non-trivial = history with at least one insert and one removal (distinct by history) / every stress run (distinct by configuration)"
+	res.Rule = "sequential: every history of the exact length L (quick 6, thorough 7) over {Enqueue A, Enqueue B, Requeue A, Requeue B, Dequeue, DequeueAll, GetDepth} (every shorter history is a prefix), every history of length 5 (thorough 6) over {Enqueue A/B, Dequeue, DequeueAll, put back the last result, put back its second half, Enqueue(nil), Requeue(nil), GetDepth} + random histories up to 200 calls over chunks incl. empty / nil / 64 KiB / repeated; real util.Queue vs Lean Seq model vs list spec: all results, final depth, returned slices must not change afterwards (DequeueAll buffers are overwritten by the caller), Dequeue nil-ness pinned. integration: real channel.Channel over a scripted transport in a child process (kinds read, readall, mixed, prompt, explicit, fuzzy, getprompt, login-ssh, login-telnet, read-err, eof x read sizes 1..300 KiB x reads of length 0 / normalising to empty or nil x CR/ANSI x delays x feeding x channel log), judged end to end: normalised transport bytes = bytes operations obtained ++ bytes left, put-backs first, channel log = stream; replayed by the Lean reader consumeB with the model's normalisation; same under -race. concurrent: one producer + one consumer goroutine on the real queue (chunks of 1 byte .. 68 KiB), GOMAXPROCS 1/2/4/16, consumer checks its stream through a push-back reader (also replayed by the Lean reader `consume`), GetDepth bounds, nil-only-when-empty, watchdog; the same under -race in a child process. non-trivial = history with at least one insert and one removal (distinct by history) / every stress or integration run (distinct by configuration)"
 	if c.replay != "" {
 		if ops, ok := c20parseLine(c.replay); ok {
 			c.c20seqBatch([][]c20op{ops}, "replay")
@@ -751,6 +878,22 @@ func runC20(c *ctx) {
 			for i := 0; i < 5; i++ { // the runtime's schedule is not replayable: try a few times
 				c.c20stressOne(cfg)
 			}
+			return
+		}
+		if strings.HasPrefix(c.replay, "c20 chanworker ") {
+			in, out, par := "", "", 1
+			for _, kv := range strings.Fields(c.replay)[2:] {
+				p := strings.SplitN(kv, "=", 2)
+				switch p[0] {
+				case "in":
+					in = p[1]
+				case "out":
+					out = p[1]
+				case "par":
+					par, _ = strconv.Atoi(p[1])
+				}
+			}
+			c20chanWorker(in, out, par)
 			return
 		}
 		if cfg, race, ok := c20parseChan(c.replay); ok {
